@@ -156,13 +156,16 @@ PROPS = {
     ),
     "C16": dict(
         level="exploration",
-        modules=["specs.patching", "specs.rbcommon", "specs.makepre"],
+        modules=["specs.patching", "specs.rbcommon", "specs.makepre", "specs.frontends", "specs.diffrb"],
         provers=[("checks.effects_check", "run_c16")],
         bounded=[("bounded.c16", "run")],
         assumes=["A5", "A9", "A12"],
         trusted=["effect inference is syntactic (upper bound of what a logic function reads)",
-                 "make_pre is proved against its grouping spec; make_patch is not under a discharged contract and the reduction lemmas "
-                 "L-C16a/b are not proved: the two front ends are compared by the bounded layer"],
+                 "the two front ends _diff_and_patch and _read_old_new_diff_patch are proved to be the same composition make_diff -> "
+                 "make_pre -> patch_from_pre (patch from the FULL diff) with strip_unchanged for display only, and to agree when no ACL "
+                 "is given (lemma front_ends_agree) - relative to ASSUMED contracts of the stages: each is a function of its arguments "
+                 "(make_diff, make_pre, strip_unchanged are proved so elsewhere; patch_from_pre / make_patch is not under contract and "
+                 "may modify only the pre it is given); file_diff_worker / file_patch_worker and the CLI plumbing are bounded only"],
     ),
     "C17": dict(
         level="exploration",
